@@ -12,6 +12,7 @@ import (
 	"go/constant"
 	"go/token"
 	"go/types"
+	"morlockverif/checker/internal/core"
 	"sort"
 	"strings"
 
@@ -78,7 +79,7 @@ func (s *Struct) String() string {
 	parts := make([]string, len(s.F))
 	st := s.T.Underlying().(*types.Struct)
 	for i, f := range s.F {
-		parts[i] = st.Field(i).Name() + ":" + vstr(f)
+		parts[i] = core.FieldName(st.Field(i)) + ":" + vstr(f)
 	}
 	return "{" + strings.Join(parts, " ") + "}"
 }
